@@ -1,9 +1,15 @@
 (** C20 -- DEF data is extracted as written, with wildcards and via arrays expanded.  Statements only.
-    About Model/DefRoute.v (DefWire.wire_points / .vias, DefNet.wires / .vias, the ROW branch of design_stmt and the
-    collection of '+ ROUTED' statements), for ALL routing statements and ALL wire lists.  The DEF grammar itself
-    (text -> parsed statement) is tied by differential testing only (vcheck/props/C20.py). *)
+    Three layers, each about ALL inputs of its kind:
+    * Model/DefRoute.v (DefWire.wire_points / .vias, DefNet.wires / .vias, the ROW branch of design_stmt, the collection of
+      '+ ROUTED' statements): all routing statements and wire lists;
+    * Model/DefElab.v (every DefTransformer callback, from the parse tree lark hands over to the DefFile containers): all trees;
+    * Model/DefText.v (what lark accepts with def_file.GRAMMAR -- contextual lexer, LALR look-ahead sets -- and the tree it
+      builds): all texts of code points < 256.
+    The models are tied to /repo by exact correspondence on generated inputs (vcheck/props/C20.py). *)
 From Coq Require Import List ZArith Bool String Arith.
 From KV Require Import Model.DefRoute Model.DefSpec Proofs.DefRouteProofs.
+From KV Require Import Model.DefElab Proofs.DefElabProofs.
+From KV Require Import Model.DefText Model.DefTextSpec Proofs.DefTextProofs.
 Import ListNotations.
 Local Open Scope list_scope.
 
@@ -79,3 +85,151 @@ Proof. exact row_vertical. Qed.
 (* the step hypothesis cannot be dropped: the code takes max(dx, dy) *)
 Theorem C20_row_negative_step_refuted : exists n dx, (1 <= n)%Z /\ row_entry n 1 dx 0 <> (n, dx).
 Proof. exact row_negative_step_refuted. Qed.
+
+(** ** the transformer callbacks (Model/DefElab.v): from the parse tree lark hands over to the DefFile containers.
+    [elab t = Some d]: no callback raises (only int() on a NUMBER token that is not an integer can). *)
+(* every COMPONENTS / PINS / VIAS / NETS / SPECIALNETS statement of the tree is elaborated by its callback and written to the
+   dictionary in statement order (a Python dict: a repeated name keeps its first position and the last data) *)
+Theorem C20_tree_components : forall t d, elab t = Some d ->
+  exists es, mapM elab_comp (comps_of t) = Some es /\ df_components d = pd_build es [].
+Proof. exact elab_components. Qed.
+Theorem C20_tree_pins : forall t d, elab t = Some d -> exists es, mapM elab_pin (pins_of t) = Some es /\ df_pins d = pd_build es [].
+Proof. exact elab_pins. Qed.
+Theorem C20_tree_vias : forall t d, elab t = Some d -> exists es, mapM elab_via (vias_of t) = Some es /\ df_vias d = pd_build es [].
+Proof. exact elab_vias. Qed.
+Theorem C20_tree_nets : forall t d, elab t = Some d -> exists es, mapM elab_net (nets_of t) = Some es /\ df_nets d = pd_build es [].
+Proof. exact elab_nets. Qed.
+Theorem C20_tree_specialnets : forall t d, elab t = Some d ->
+  exists es, mapM elab_spnet (spnets_of t) = Some es /\ df_specialnets d = pd_build es [].
+Proof. exact elab_specialnets. Qed.
+(* with pairwise distinct names: none lost, none duplicated, none invented -- entry i of the dictionary is statement i *)
+Theorem C20_components_exactly_once : forall t d, elab t = Some d -> NoDup (map cs_name (comps_of t)) ->
+  Forall2 (fun c e => elab_comp c = Some e) (comps_of t) (df_components d).
+Proof. exact components_exactly_once. Qed.
+Theorem C20_pins_exactly_once : forall t d, elab t = Some d -> NoDup (map ps_name (pins_of t)) ->
+  Forall2 (fun c e => elab_pin c = Some e) (pins_of t) (df_pins d).
+Proof. exact pins_exactly_once. Qed.
+Theorem C20_vias_exactly_once : forall t d, elab t = Some d -> NoDup (map vs_name (vias_of t)) ->
+  Forall2 (fun c e => elab_via c = Some e) (vias_of t) (df_vias d).
+Proof. exact vias_exactly_once. Qed.
+Theorem C20_nets_exactly_once : forall t d, elab t = Some d -> NoDup (map nn_name (nets_of t)) ->
+  Forall2 (fun c e => elab_net c = Some e) (nets_of t) (df_nets d).
+Proof. exact nets_exactly_once. Qed.
+Theorem C20_specialnets_exactly_once : forall t d, elab t = Some d -> NoDup (map sn_name (spnets_of t)) ->
+  Forall2 (fun c e => elab_spnet c = Some e) (spnets_of t) (df_specialnets d).
+Proof. exact specialnets_exactly_once. Qed.
+(* in general (repeated names): every key once; a key holds the entry of the last statement written with it *)
+Theorem C20_dict_last_wins : forall {A} (es : list (string * A)),
+  NoDup (map fst (pd_build es [])) /\ forall k, pd_get k (pd_build es []) = last_with k es None.
+Proof. exact @dict_last_wins. Qed.
+(* ROW / TRACKS / UNITS statements: list position i is statement i (Model/DefRoute.v row_tuple / track_entry on the integers) *)
+Theorem C20_rows_in_order : forall t d, elab t = Some d -> Forall2 (fun s r => s = Some r) (rows_of t) (df_rows d).
+Proof. exact rows_in_order. Qed.
+Theorem C20_tracks_in_order : forall t d, elab t = Some d -> Forall2 (fun s r => s = Some r) (tracks_of t) (df_tracks d).
+Proof. exact tracks_in_order. Qed.
+Theorem C20_units_in_order : forall t d, elab t = Some d -> Forall2 (fun s r => s = Some r) (units_of t) (df_units d).
+Proof. exact units_in_order. Qed.
+(* DESIGN name, VERSION, DIVIDERCHAR, BUSBITCHARS (quotes removed): the last statement of the kind; DIEAREA likewise *)
+Theorem C20_header : forall t d, elab t = Some d ->
+  df_design d = last_header sel_design t /\ df_version d = last_header sel_version t /\
+  df_dividerchar d = last_header sel_dividerchar t /\ df_busbitchars d = last_header sel_busbitchars t.
+Proof. exact elab_header. Qed.
+Theorem C20_diearea : forall t d, elab t = Some d ->
+  exists es, mapM oid (dieareas_of t) = Some es /\ df_diearea d = last (map Some es) None.
+Proof. exact elab_diearea. Qed.
+(* a point: '*' becomes None, a NUMBER its integer value; the optional third value is kept *)
+Theorem C20_point_as_written : forall p r, cb_point p = Some r <->
+  coord_is (tp_x p) (rp_x r) /\ coord_is (tp_y p) (rp_y r) /\
+  match tp_z p with None => rp_z r = None | Some s => exists z, py_int s = Some z /\ rp_z r = Some z end.
+Proof. exact point_as_written. Qed.
+
+(** ** one net statement (regular or special; [ew] is the wire callback) *)
+(* name, connection list in the order written, and under each wiring keyword exactly the wires of the statements written
+   with that keyword, in order (several '+ ROUTED' statements accumulate; COVER / FIXED / NOSHIELD stay apart) *)
+Theorem C20_net_as_written : forall {W} (ew : W -> option dwire) name items its k, mapM (elab_item ew) items = Some its ->
+  let n := cb_net_stmt name its in
+  dn_name n = name /\ dn_pins n = written_pins items /\
+  mapM ew (wires_under k items) = Some (dnet_wiring (wkw_lower k) n).
+Proof. exact @net_as_written. Qed.
+Theorem C20_net_attr_as_written : forall {W} (ew : W -> option dwire) name items its ok, mapM (elab_item ew) items = Some its ->
+  pd_get (okw_lower ok) (dn_attrs (cb_net_stmt name its)) =
+  last_with (okw_lower ok) (map (fun kv => (okw_lower (fst kv), NStr (snd kv))) (written_opts items)) None.
+Proof. exact @net_attr_as_written. Qed.
+(* the routing statement that reaches Model/DefRoute.v is the wire as written: layer, width, first point, then points
+   (with None for '*') and vias (orientation 'N' when none is written; DO..STEP as the array parameter) in order *)
+Theorem C20_rwire_as_written : forall w dw r, elab_rwire w = Some dw -> route_of_dwire dw = Some r ->
+  w_layer r = rw_layer w /\ w_width r = None /\
+  cb_point (rw_first w) = Some (mkRP (Some (px (w_first r))) (Some (py (w_first r))) (pext (w_first r))) /\
+  Forall2 relem_is (rw_rest w) (w_rest r).
+Proof. exact rwire_as_written. Qed.
+Theorem C20_spwire_as_written : forall w dw r, elab_spwire w = Some dw -> route_of_dwire dw = Some r ->
+  w_layer r = sw_layer w /\ (exists wd, py_int (sw_width w) = Some wd /\ w_width r = Some wd) /\
+  cb_point (sw_first w) = Some (mkRP (Some (px (w_first r))) (Some (py (w_first r))) (pext (w_first r))) /\
+  Forall2 spelem_is (sw_rest w) (w_rest r).
+Proof. exact spwire_as_written. Qed.
+(* callbacks ; DefRoute: DefNet.wires / DefNet.vias of the extracted net are the per-layer / per-type listings (theorems
+   above) of exactly the wires written under the net's '+ ROUTED' statements *)
+Theorem C20_def_of_tree_listing : forall {W} (ew : W -> option dwire) name items its ws,
+  mapM (elab_item ew) items = Some its ->
+  mapM route_of_dwire (dnet_routed (cb_net_stmt name its)) = Some ws ->
+  (exists dws, mapM ew (wires_under KRouted items) = Some dws /\ mapM route_of_dwire dws = Some ws) /\
+  dnet_wires (cb_net_stmt name its) = Some (net_wires ws) /\ dnet_vias (cb_net_stmt name its) = Some (net_vias ws) /\
+  (forall L, dd_get L (net_wires ws) =
+             map (fun w => (w_width w, wire_points w)) (filter (fun w => String.eqb L (w_layer w) && has_segment w) ws)) /\
+  (forall t, dd_get t (net_vias ws) = flat_map (fun w => under t (wire_via_walk w)) ws).
+Proof. exact @def_of_tree_listing. Qed.
+
+(** ** the TEXT level (Model/DefText.v: the language lark accepts with def_file.GRAMMAR and the tree it builds) *)
+(* the lexer on a whole word: after any ignored text (blanks, comments that follow a blank), a word that is a whole token under
+   the accept set [acc] and is followed by a blank is returned as that token; an ORIENTATION takes the blank with it *)
+Theorem C20_lexer_word : forall acc g w t c0 Y, forallb ign_ok g = true -> word_tok acc w = Some t -> is_ws c0 = true ->
+  next_token acc (igns_text g ++ w ++ String c0 Y) = Some (t, tok_rest t c0 Y).
+Proof. exact next_token_word. Qed.
+(* ignored text in front of a token is invisible to every scanner *)
+Theorem C20_lexer_ignores : forall acc g w X, forallb ign_ok g = true -> first_ok w = true ->
+  next_token acc (igns_text g ++ w ++ X) = next_token acc (w ++ X).
+Proof. exact next_token_ignores. Qed.
+(* every program of token requests -- the DEF parser is one -- reads a text as it reads the word list the text writes *)
+Theorem C20_text_as_words : forall {A} (p : P A) s ws a r, Rel s ws -> runs p ws = Some (a, r) ->
+  exists s', run p s = Some (a, s') /\ Rel s' r.
+Proof. exact @run_sim. Qed.
+(* round trip: the words of a well-formed tree are read back as the tree ... *)
+Theorem C20_words_roundtrip : forall t fuel, wf_tree t = true -> t_comment t = None -> List.length (words t) < fuel ->
+  runs (p_start fuel) (words t) = Some (t, []).
+Proof. exact runs_words. Qed.
+(* ... so ANY text that writes these words -- arbitrary ignored text between them, a blank after each -- parses to the tree *)
+Theorem C20_parse_words : forall t s, wf_tree t = true -> t_comment t = None -> Rel s (words t) -> parse_def s = Some t.
+Proof. exact parse_words. Qed.
+Theorem C20_parse_words_comment : forall t c s, wf_tree t = true -> t_comment t = Some c -> Rel s (words t) ->
+  parse_def (c ++ nl ++ s) = Some t.
+Proof. exact parse_words_comment. Qed.
+Theorem C20_parse_print : forall t, wf_tree t = true -> parse_def (print_def t) = Some t.
+Proof. exact parse_print. Qed.
+(* what well-formed means for names: no blank inside, not starting with a blank, "#" or "+"; a via of a regular wire is in
+   addition not NEW, "(" or ";" (the scanner retypes these) and not an orientation word *)
+Theorem C20_wf_id_iff : forall w, wf_id w = true <-> nows w = true /\ first_ok w = true /\ starts_plus w = false.
+Proof. exact wf_id_iff. Qed.
+Theorem C20_wf_rvia_iff : forall w, wf_rvia w = true <->
+  wf_id w = true /\ orient_word w = false /\ mem_str w ["NEW"; "("; ";"]%string = false.
+Proof. exact wf_rvia_iff. Qed.
+(* composition: def_file.parse on the printed text / on any text writing the words = the callbacks on the tree;
+   hence the statements written in the TEXT reach the DefFile exactly once, in order *)
+Theorem C20_def_of_text_print : forall t, wf_tree t = true -> def_of_text (print_def t) = elab t.
+Proof. exact def_of_text_print. Qed.
+Theorem C20_def_of_text_words : forall t s, wf_tree t = true -> t_comment t = None -> Rel s (words t) -> def_of_text s = elab t.
+Proof. exact def_of_text_words. Qed.
+Theorem C20_text_components : forall t s d, wf_tree t = true -> t_comment t = None -> Rel s (words t) -> def_of_text s = Some d ->
+  NoDup (map cs_name (comps_of t)) -> Forall2 (fun c e => elab_comp c = Some e) (comps_of t) (df_components d).
+Proof. exact text_components. Qed.
+Theorem C20_text_pins : forall t s d, wf_tree t = true -> t_comment t = None -> Rel s (words t) -> def_of_text s = Some d ->
+  NoDup (map ps_name (pins_of t)) -> Forall2 (fun c e => elab_pin c = Some e) (pins_of t) (df_pins d).
+Proof. exact text_pins. Qed.
+Theorem C20_text_nets : forall t s d, wf_tree t = true -> t_comment t = None -> Rel s (words t) -> def_of_text s = Some d ->
+  NoDup (map nn_name (nets_of t)) -> Forall2 (fun c e => elab_net c = Some e) (nets_of t) (df_nets d).
+Proof. exact text_nets. Qed.
+Theorem C20_text_specialnets : forall t s d, wf_tree t = true -> t_comment t = None -> Rel s (words t) -> def_of_text s = Some d ->
+  NoDup (map sn_name (spnets_of t)) -> Forall2 (fun c e => elab_spnet c = Some e) (spnets_of t) (df_specialnets d).
+Proof. exact text_specialnets. Qed.
+Theorem C20_text_rows_tracks : forall t s d, wf_tree t = true -> t_comment t = None -> Rel s (words t) -> def_of_text s = Some d ->
+  Forall2 (fun x r => x = Some r) (rows_of t) (df_rows d) /\ Forall2 (fun x r => x = Some r) (tracks_of t) (df_tracks d).
+Proof. exact text_rows_tracks. Qed.
